@@ -3,6 +3,7 @@ CONSTANTS
   Idents <- MCIdents
   Edges <- MCEdges
   ParentOf <- MCParent
+  Fresh <- MCFresh
   MaxWrites = 3
   MaxOutages = 1
   AsCoded = FALSE
